@@ -55,19 +55,19 @@ theorem readRet_full (bs : Bytes) (h : 16 ≤ bs.length) : readRet bs = 16 := by
   unfold readRet HEADER_SIZE; omega
 
 /-- the mutating events of the three paths -/
-theorem filter_wipeEvents (path parent : Value) (b : Bool) :
+theorem filter_wipeEvents (o : SL.Ord) (path parent : Value) (b : Bool) :
     (wipeEvents path parent b).filter isMutEv
     = ((if b then [Crash.Op.createDirAll] else []) ++
         [Crash.Op.create, Crash.Op.writeU32 .wipeMagic0 MAGIC0, Crash.Op.writeU32 .wipeMagic1 MAGIC1,
          Crash.Op.writeU32 .wipeSegsize SEGMENT_SIZE, Crash.Op.writeU16 .wipeVersion 0, Crash.Op.writeU16 .wipeGeneration 0,
          Crash.Op.writeAll (SEGMENT_SIZE - HEADER_SIZE), Crash.Op.syncAll]).map
-        (opValue path parent) := by
+        (opValue o path parent) := by
   cases b <;> simp [wipeEvents, evFs, isMutEv, opValue, okUnit, fileObj, MAGIC0, MAGIC1, SEGMENT_SIZE, HEADER_SIZE]
 
 theorem filter_mapEvents (path : Value) (fd : Nat) : (mapEvents path fd).filter isMutEv = [] := by
   simp [mapEvents, evFs, isMutEv]
 
-theorem filter_versionStore : [versionStore].filter isMutEv = [versionStore] := by
+theorem filter_versionStore (ov : Value) : [versionStore ov].filter isMutEv = [versionStore ov] := by
   simp [versionStore, evStore, isMutEv]
 
 /-- the unusable paths, from the outcome of `is_usable_segment` -/
@@ -77,9 +77,10 @@ theorem new_unusable_ops (st : FileState) (hu : (Crash.fileAOf st).usable = fals
     (husable : ∀ N env lg, callKnown (N + 120) (nctx (streamOf (newAnswers fd (parent != "") st)))
         Code.fn_ShmWriter__is_usable_segment [.ext "Path" [.str "shm", .str parent]] { env := env, log := lg, pos := 0 }
       = .val (.enumv "Err" [e]) { env := env, log := lg ++ evs, pos := k }) :
+    ∃ o : SL.Ord,
     (run (nctx (streamOf (newAnswers fd (parent != "") st))) "ShmWriter::new" .unit [pathObj "shm" parent]).okWith isMutEv
     = some (writerValue SEGMENT_SIZE,
-        (Crash.newOps (Crash.fileAOf st) (parent != "")).map (opValue (pathObj "shm" parent) (pathObj parent ""))) := by
+        (Crash.newOps (Crash.fileAOf st) (parent != "")).map (opValue o (pathObj "shm" parent) (pathObj parent ""))) := by
   have hN : newAnswers fd (parent != "") st
       = A ++ (wipeAnswers (parent != "") ++ [.enumv "Ok" [.int .i32 fd], .enumv "Ok" [.enumv "addr:segment" []]]) := by
     simp [newAnswers, hu, hA, DictShm.addr]
@@ -90,18 +91,23 @@ theorem new_unusable_ops (st : FileState) (hu : (Crash.fileAOf st).usable = fals
         simpa [streamOf] using this)
     (by have := streamOf_after A (wipeAnswers (parent != "")) [.enumv "Ok" [.int .i32 fd], .enumv "Ok" [.enumv "addr:segment" []]] k hk 1
         simpa [streamOf] using this)
+  obtain ⟨hrun, hord⟩ := this
+  obtain ⟨o, ho⟩ := Option.isSome_iff_exists.mp hord
+  rw [ordValue_ordOfValue _ _ ho] at hrun
+  refine ⟨o, ?_⟩
   simp only [pathObj]
-  rw [this]
-  simp only [Outcome.okWith, List.filter_append, hevs, filter_wipeEvents, filter_mapEvents, filter_versionStore,
+  rw [hrun]
+  simp only [Outcome.okWith, List.filter_append, hevs, filter_wipeEvents o, filter_mapEvents, filter_versionStore,
     List.nil_append, List.append_nil, Crash.newOps, hu, SEGMENT_SIZE]
-  simp [versionStore, opValue, DictShm.ordering, SEGMENT_SIZE, HEADER_SIZE]
+  simp [versionStore, opValue, SEGMENT_SIZE, HEADER_SIZE]
 
 /-- the usable paths -/
 theorem new_usable_ops (bs : Bytes) (hu : (Crash.fileAOf (.file bs)).usable = true) (hh : (parseHeader bs).inRange)
     (parent : String) (fd : Nat) (hfd : fd ≤ 2147483647) :
+    ∃ o : SL.Ord,
     (run (nctx (streamOf (newAnswers fd (parent != "") (.file bs)))) "ShmWriter::new" .unit [pathObj "shm" parent]).okWith isMutEv
     = some (writerValue SEGMENT_SIZE,
-        (Crash.newOps (Crash.fileAOf (.file bs)) (parent != "")).map (opValue (pathObj "shm" parent) (pathObj parent ""))) := by
+        (Crash.newOps (Crash.fileAOf (.file bs)) (parent != "")).map (opValue o (pathObj "shm" parent) (pathObj parent ""))) := by
   obtain ⟨h16, hc, h72⟩ := (usable_file bs).mp hu
   have hret := readRet_full bs h16
   have hlen : (Crash.fileAOf (.file bs)).len = bs.length := rfl
@@ -128,11 +134,15 @@ theorem new_usable_ops (bs : Bytes) (hu : (Crash.fileAOf (.file bs)).usable = tr
       simp [Res.bind, h72']
     have := new_usable_short _ parent fd bs.length (by unfold SEGMENT_SIZE at hl; exact hl) _ 4 hus (by simp [streamOf, hL])
       (by simp [streamOf, hL]) (by simp [streamOf, hL]) (by simp [streamOf, hL]) (by simp [streamOf, hL])
+    obtain ⟨hrun, hord⟩ := this
+    obtain ⟨o, ho⟩ := Option.isSome_iff_exists.mp hord
+    rw [ordValue_ordOfValue _ _ ho] at hrun
+    refine ⟨o, ?_⟩
     simp only [pathObj]
-    rw [this]
+    rw [hrun]
     simp only [Outcome.okWith, List.filter_append, filter_openEvents, filter_mapEvents, filter_versionStore,
       List.nil_append, List.append_nil, Crash.newOps, hu, hlen, hl]
-    simp [versionStore, opValue, DictShm.ordering, SEGMENT_SIZE, evFs, isMutEv, okUnit]
+    simp [versionStore, opValue, SEGMENT_SIZE, evFs, isMutEv, okUnit]
   · have hN : newAnswers fd (parent != "") (.file bs)
         = [.int .infer fd, .int .infer 16, headerValue (parseHeader bs), .enumv "addr:segment" [],
            .enumv "Ok" [.ext "Metadata" [.int .u64 bs.length]],
@@ -150,19 +160,24 @@ theorem new_usable_ops (bs : Bytes) (hu : (Crash.fileAOf (.file bs)).usable = tr
       simp [Res.bind, h72']
     have := new_usable_long _ parent fd bs.length (by unfold SEGMENT_SIZE at hl; omega) _ 4 hus (by simp [streamOf, hL])
       (by simp [streamOf, hL]) (by simp [streamOf, hL])
+    obtain ⟨hrun, hord⟩ := this
+    obtain ⟨o, ho⟩ := Option.isSome_iff_exists.mp hord
+    rw [ordValue_ordOfValue _ _ ho] at hrun
+    refine ⟨o, ?_⟩
     simp only [pathObj]
-    rw [this]
+    rw [hrun]
     simp only [Outcome.okWith, List.filter_append, filter_openEvents, filter_mapEvents, filter_versionStore,
       List.nil_append, List.append_nil, Crash.newOps, hu, hlen, hl]
-    simp [versionStore, opValue, DictShm.ordering, SEGMENT_SIZE, evFs, isMutEv]
+    simp [versionStore, opValue, SEGMENT_SIZE, evFs, isMutEv]
 
 /-- `ShmWriter::new` on every prior state of the path (not a directory): the state-changing operations are
     `Crash.newOps`, the result is the writer over the mapping -/
 theorem new_tie (st : FileState) (hdir : st ≠ .directory) (hst : ∀ bs, st = .file bs → (parseHeader bs).inRange)
     (parent : String) (fd : Nat) (hfd : fd ≤ 2147483647) :
+    ∃ o : SL.Ord,
     (run (nctx (streamOf (newAnswers fd (parent != "") st))) "ShmWriter::new" .unit [pathObj "shm" parent]).okWith isMutEv
     = some (writerValue SEGMENT_SIZE,
-        (Crash.newOps (Crash.fileAOf st) (parent != "")).map (opValue (pathObj "shm" parent) (pathObj parent ""))) := by
+        (Crash.newOps (Crash.fileAOf st) (parent != "")).map (opValue o (pathObj "shm" parent) (pathObj parent ""))) := by
   cases st with
   | directory => exact absurd rfl hdir
   | missing =>
